@@ -5092,7 +5092,12 @@ func reduceBinaryExprDurationLHS(op Token, lhs *DurationLiteral, rhs Expr, loc *
 			if rhs.Val == 0 {
 				return &DurationLiteral{Val: 0}
 			}
-			return &DurationLiteral{Val: lhs.Val / time.Duration(rhs.Val)}
+			if d := time.Duration(rhs.Val); d != 0 {
+				return &DurationLiteral{Val: lhs.Val / d}
+			}
+			// A divisor between -1 and 1 truncates to a zero duration:
+			// divide in floating point instead of by zero.
+			return &DurationLiteral{Val: time.Duration(float64(lhs.Val) / rhs.Val)}
 		}
 	case *IntegerLiteral:
 		switch op {
